@@ -10,7 +10,7 @@ ORACLES = (oracles.o_harness, oracles.o_driver_events, oracles.o_time, oracles.o
 
 
 def nontrivial(c, mobs):
-    return any(cm[0] == "cn" for cm in c["cmds"]) or "cancel" in c.get("tags", ())
+    return any(cm[0] in ("cn", "ca") for cm in c["cmds"]) or "cancel" in c.get("tags", ())
 
 
 def tie(rep, tier, rng, model_ok):
